@@ -324,7 +324,8 @@ def job_multiscale(cfg):
 
 
 def record_violation(jr, relation, sig, call, err):
-    rep = replay(**call)
+    with stubs.real_torch():  # (callers may still be inside the symbolic torch patches)
+        rep = replay(**call)
     payload = {"property": PROP, "kernel": jr["kernel"], "relation": relation, "signature": sig, "error": err, "replay_result": rep, "replay_call": {"fn": "harness.C08:replay", "args": call}}
     if rep.get("reproduced"):
         fn = "".join(ch if ch.isalnum() else "_" for ch in "%s_%s_%s" % (jr["kernel"], relation, sorted(sig.items())))[:110]
@@ -429,6 +430,10 @@ def configs(tier):
     progs = []
     for n in (1, 2, 3):
         for tree in gen_trees(list(range(n)), 3 if tier == "quick" else 4):
+            progs.append((n, tree))
+    # the same transform instance at several positions (weight sharing): a wrapper must apply it once per position
+    for n, leaves in ((1, [0, 0]), (2, [0, 1, 0]), (2, [0, 1, 1]), (2, [0, 0, 1])) + (() if tier == "quick" else ((2, [0, 1, 0, 1]), (3, [0, 1, 2, 0]))):
+        for tree in gen_trees(leaves, 2 if tier == "quick" else 3):
             progs.append((n, tree))
     for i in range(0, len(progs), 40):
         cfgs.append({"type": "programs", "trees": progs[i:i + 40], "timeout": t})
